@@ -5,7 +5,7 @@ numerals, conversions = repeated cons, and the first-order functions of the pair
 (`LC/Proofs/Eager/BigStep.lean`) with the `_reduce_hap` corollaries about the model reducer.
 -/
 import LC.Proofs.Eager.ChurchCbv
-import LC.Props.C16
+import LC.Props.C16Base
 
 namespace LC
 open Term Spec Enc RL Eager C16
